@@ -530,7 +530,7 @@ private:
   const Cfg* cfgs;
   int ncfg;
   IWorld* w = nullptr;
-  int nteardown = 4;
+  int nteardown = 2;
   int cur_cfg = 0;
   bool mode_c17 = false, mode_c02 = false;
 
@@ -611,6 +611,13 @@ public:
     const char* mode = g.mode;
     bool c18 = is(mode, "C18"), c17 = is(mode, "C17"), c02 = is(mode, "C02"), c15 = is(mode, "C15");
     // pick a configuration that supports the mode
+    bool any18 = false, any17 = false;
+    for (int i = 0; i < ncfg; i++) {
+      any18 = any18 || cfgs[i].tr.hp_like;
+      any17 = any17 || !cfgs[i].tr.lfrc;
+    }
+    if (c18 && !any18) c18 = false; // this binary has no hazard pointer/era configuration: plain C01 programs
+    if (c17 && !any17) c17 = false;
     for (;;) {
       p.config = (int)g.rng.below(ncfg);
       const Traits& tr = cfgs[p.config].tr;
